@@ -105,7 +105,7 @@ func newCollector(props []string) *Collector {
 }
 
 const (
-	maxFailures      = 200
+	maxFailures      = 120 // per property
 	maxPerBucket     = 2
 	maxPerPropKind   = 40
 	maxSamplesStored = 5
@@ -156,11 +156,15 @@ func (c *Collector) fail(f Failure) {
 	g.FailuresByKind[f.Kind]++
 	bucket := f.Property + "|" + f.Kind + "|" + f.Package + "|" + f.Def
 	pk := f.Property + "|" + f.Kind
-	if c.perBucket[bucket] >= maxPerBucket || c.perBucket[pk] >= maxPerPropKind || len(c.failures) >= maxFailures {
+	// bounded per property, never globally: a property checked late (C09 is compared at the very end) must
+	// not lose its failing cases because earlier properties filled the list
+	pp := "prop|" + f.Property
+	if c.perBucket[bucket] >= maxPerBucket || c.perBucket[pk] >= maxPerPropKind || c.perBucket[pp] >= maxFailures {
 		return
 	}
 	c.perBucket[bucket]++
 	c.perBucket[pk]++
+	c.perBucket[pp]++
 	c.failures = append(c.failures, f)
 }
 
